@@ -21,6 +21,14 @@ claimed = {
          "content strings of 2 bytes, short lists; hashed key identifiers are part of the C01 harness; the pathLen=0 defect is a recorded known finding"),
  "C16": ("5/C16", "The admission encoder (raw TLV assembly plus emulated reflection in partialMarshallStruct) is executed level by level for every subset of optional members and every GeneralName kind, and through the v1 configuration layer, against a reference AdmissionSyntax encoder written from Common PKI v2.0.",
          "compositional coverage of the tree, 2-byte ASCII strings"),
+ "C14": ("5/C14", "One regeneration step through the real GenerateArtifacts for an entity holding a key of any drawn type, a request without key, or nothing; key identity, SPKI, number of key generations and the verification of a child issued afterwards are asserted. Any number of regenerations follows by induction over the stored artifact.",
+         "ideal crypto; key-generation counter of the engine; PEM persistence is C17's subject"),
+ "C17": ("5/C17", "PKCS#8 write/read of EC keys is executed for all ten curves with the private scalar as a solver variable (1 <= d < N); PEM files with every block combination are written and read back with the real encoding/pem code interpreted.",
+         "asn1.Unmarshal of symbolic bytes only as the inverse of an earlier Marshal of the same type (axiom); foreign encodings, rejection of invalid keys and crypto/x509 interoperability are not decided"),
+ "C18": ("5/C18", "The real FsDb.Open (WalkDir, importCertConfigFile, IsConsistent) runs on an in-memory directory for every issuer graph, alias layout and collision pattern inside the bound; the suffix filter runs with symbolic letter case.",
+         "config.ParseConfig replaced by a flat-YAML reader feeding the real initCertificate; in-memory fs.FS double"),
+ "C20": ("5/C20", "Panic-freedom is the engine's native question: every feasible path that reaches a Go panic in the interpreted real code is a violation. Dedicated harnesses cover the hash-line slicing on symbolic bytes, OID strings with over-long arcs in every position, zero-valued extensions, and every artifact-state x strategy combination of a two-level hierarchy through PlanBulkUpdate and BulkUpdate.",
+         "yaml / jsonschema / asn1.Unmarshal / pem internals on hostile bytes are not executed"),
  "C19": ("5/C19", "Self-composition: the same configuration is generated with and without every subset of the six manipulations (symbolic values) and all fields are compared; the signature is verified over the manipulated TBS bytes.",
          "self-issued P-256 certificate with a given key; ideal signature scheme"),
  "C08": ("5/C08", "Merge is executed symbolically against the merge rule of the statement for every profile/certificate list inside the bound; inputs-unchanged frame check. The failure clause for content-less extensions is decided by the C06/C07 builder harnesses once present.",
